@@ -294,7 +294,7 @@ def register(props):
                 "one-of and property; two external namespaces with colliding ids applied in both orders and partially; one-of "
                 "members living in external namespaces; a self-referential and a mutually referential scope with inputs nested "
                 "1..150 levels) plus generated scope trees whose object ids come from one shared pool (so nested scopes collide), "
-                "with references to later objects of the nearest scope and to both external namespaces under every container, each "
+                "with references to later objects of the nearest scope and to both external namespaces under every container (every fixed case with external namespaces also, and 60% of the generated ones, with the two namespaces NAMED by a near-equal pair: differing only in letter case - ASCII and the Kelvin sign -, one a prefix of the other, a leading / trailing space, blank names next to the self namespace, swapped; both tables hold an object X of different shapes), each "
                 "with 6-9 generated / mutated inputs; 8% of the optional properties are DISABLED (with / without a reason) whatever their "
                 "type — references under them must be linked all the same — and scopes that have one also get native values "
                 "carrying those fields for Validate / Serialize; a fixed tree of scopes nested DIRECTLY as property types three deep "
